@@ -195,6 +195,14 @@ var (
 )
 
 func (p *Profile) AddRule(log map[string]string) {
+	// A record the rule constructors cannot make sense of (unknown access
+	// letter, unmapped operation of a known class) must not stop the others
+	defer func() {
+		if r := recover(); r != nil {
+			fmt.Printf("invalid log: %v: %v\n", r, log)
+		}
+	}()
+
 	// Generate profile flags and extra rules
 	switch log["error"] {
 	case "-2":
